@@ -13,7 +13,7 @@ func c20(c *core.Ctx, r *core.Report) {
 	r.Explanation = "Decides the structure of CombineScenarios: (R1) the setup closure calls every component with its own parameter (the setup handle it was given), appends each result in loop order to a slice created inside that setup call, and the iteration closure calls every stored function with its own parameter; " +
 		"(R2) both loops are single forward passes over the whole slice, one call per element, with no go, defer or recover — so a FailNow/panic in component i unwinds past components i+1… into the frame C07.R1 guards, in that iteration only; (R3) such an iteration is reported failed (C07.R1–R3: containment, classifier, failure APIs)."
 	r.NotDecided = []string{"behaviour of the components themselves"}
-	cs := c.MustFn("pkg/f1", "CombineScenarios")
+	cs := delegateTarget(c.MustFn("pkg/f1", "CombineScenarios"))
 	var setupFn, iterFn *ssa.Function
 	// by role: the setup function is the ScenarioFn value CombineScenarios returns, the iteration function the RunFn
 	// value that one returns — function literals or methods taken as values
@@ -83,231 +83,268 @@ func c20(c *core.Ctx, r *core.Report) {
 		return false
 	}
 
-	rule(r, "C20.R1", "components receive the closure's own handle; results are collected in order into a slice owned by that setup call; stored functions are called with the iteration's own handle", func() {
-		if setupFn == nil || iterFn == nil {
-			panic(core.AnchorError{What: "setup / iteration closures of CombineScenarios"})
-		}
-		sev, one := loopCall(setupFn, "ScenarioFn")
-		if sev == nil || !one {
-			r.Violation("CombineScenarios$setup#call", c.Pos(setupFn.Pos()), "the setup closure does not contain exactly one component-setup call site")
-			return
-		}
-		sc := sev.Call()
-		h := sev.Translate(sc.Common().Args[0])
-		hp, isParam := h.(*ssa.Parameter)
-		r.Check(isParam && hp.Parent() == setupFn, "CombineScenarios$setup#handle", an.Pos(c, sc), "each component setup receives the setup closure's own parameter", "component setups are called with "+an.D().Of(h)+", not with the handle this setup was given: cleanups and failures land on another handle")
-		// the component called is the range element of the scenarios given
-		r.Check(isRangeElemOf(sc.Common().Value), "CombineScenarios$setup#element", an.Pos(c, sc), "the component called is the loop's element of the scenarios given", "the setup called is "+an.D().Of(sc.Common().Value))
-		// result appended, in loop order, to a list: a local cell (load/append/store back) or a loop-carried value
-		v, _ := sc.(ssa.Value)
-		appended := false
-		var target *ssa.Alloc
-		var listPhi *ssa.Phi
-		for _, ref := range an.Referrers(v) {
-			st, ok := ref.(*ssa.Store)
-			if !ok {
-				continue
+	// every iteration function the setup can hand back (variants chosen by an option are all judged)
+	var iterFns []*ssa.Function
+	if setupFn != nil {
+		seenIter := map[*ssa.Function]bool{}
+		for _, r2 := range an.Returns(setupFn) {
+			if len(r2.Results) == 1 {
+				if g := fnBehind(r2.Results[0]); g != nil && !seenIter[g] {
+					seenIter[g] = true
+					iterFns = append(iterFns, g)
+				}
 			}
-			ia, ok := st.Addr.(*ssa.IndexAddr)
-			if !ok {
-				continue
+		}
+	}
+	if len(iterFns) == 0 && iterFn != nil {
+		iterFns = []*ssa.Function{iterFn}
+	}
+	runIter := func() {
+		rule(r, "C20.R1", "components receive the closure's own handle; results are collected in order into a slice owned by that setup call; stored functions are called with the iteration's own handle", func() {
+			if setupFn == nil || iterFn == nil {
+				panic(core.AnchorError{What: "setup / iteration closures of CombineScenarios"})
 			}
-			arr, _ := ia.X.(*ssa.Alloc)
-			for _, r2 := range an.Referrers(arr) {
-				sl, ok := r2.(*ssa.Slice)
+			sev, one := loopCall(setupFn, "ScenarioFn")
+			if sev == nil || !one {
+				r.Violation("CombineScenarios$setup#call", c.Pos(setupFn.Pos()), "the setup closure does not contain exactly one component-setup call site")
+				return
+			}
+			sc := sev.Call()
+			h := sev.Translate(sc.Common().Args[0])
+			hp, isParam := h.(*ssa.Parameter)
+			r.Check(isParam && hp.Parent() == setupFn, "CombineScenarios$setup#handle", an.Pos(c, sc), "each component setup receives the setup closure's own parameter", "component setups are called with "+an.D().Of(h)+", not with the handle this setup was given: cleanups and failures land on another handle")
+			// the component called is the range element of the scenarios given
+			r.Check(isRangeElemOf(sc.Common().Value), "CombineScenarios$setup#element", an.Pos(c, sc), "the component called is the loop's element of the scenarios given", "the setup called is "+an.D().Of(sc.Common().Value))
+			// result appended, in loop order, to a list: a local cell (load/append/store back) or a loop-carried value
+			v, _ := sc.(ssa.Value)
+			appended := false
+			var target *ssa.Alloc
+			var listPhi *ssa.Phi
+			for _, ref := range an.Referrers(v) {
+				st, ok := ref.(*ssa.Store)
 				if !ok {
 					continue
 				}
-				for _, r3 := range an.Referrers(sl) {
-					ap, ok := r3.(*ssa.Call)
-					if !ok || !an.IsBuiltinCall(ap, "append") {
+				ia, ok := st.Addr.(*ssa.IndexAddr)
+				if !ok {
+					continue
+				}
+				arr, _ := ia.X.(*ssa.Alloc)
+				for _, r2 := range an.Referrers(arr) {
+					sl, ok := r2.(*ssa.Slice)
+					if !ok {
 						continue
 					}
-					switch base := ap.Call.Args[0].(type) {
-					case *ssa.UnOp:
-						// append(load(cell), elems...) stored back to the cell
-						for _, r4 := range an.Referrers(ap) {
-							if st2, ok := r4.(*ssa.Store); ok && st2.Addr == base.X {
-								appended = true
-								switch a := base.X.(type) {
-								case *ssa.Alloc:
-									target = a
-								case *ssa.FreeVar:
-									if b := an.FreeVarBinding(a); b != nil {
-										target, _ = b.(*ssa.Alloc)
+					for _, r3 := range an.Referrers(sl) {
+						ap, ok := r3.(*ssa.Call)
+						if !ok || !an.IsBuiltinCall(ap, "append") {
+							continue
+						}
+						switch base := ap.Call.Args[0].(type) {
+						case *ssa.UnOp:
+							// append(load(cell), elems...) stored back to the cell
+							for _, r4 := range an.Referrers(ap) {
+								if st2, ok := r4.(*ssa.Store); ok && st2.Addr == base.X {
+									appended = true
+									switch a := base.X.(type) {
+									case *ssa.Alloc:
+										target = a
+									case *ssa.FreeVar:
+										if b := an.FreeVarBinding(a); b != nil {
+											target, _ = b.(*ssa.Alloc)
+										}
 									}
 								}
 							}
+						case *ssa.Phi:
+							if phiCycle(base, ap) {
+								appended = true
+								listPhi = base
+							}
 						}
-					case *ssa.Phi:
-						if phiCycle(base, ap) {
-							appended = true
-							listPhi = base
-						}
 					}
 				}
 			}
-		}
-		if !appended {
-			r.Violation("CombineScenarios$setup#collect", an.Pos(c, sc), "the iteration function returned by a component setup is not appended to the list the iteration closure walks")
-			return
-		}
-		fresh := false
-		if target != nil {
-			fresh = inFrames(sev, target.Parent())
-		} else if listPhi != nil {
-			fresh = true
-			for _, e := range listPhi.Edges {
-				if k, isK := e.(*ssa.Const); isK && k.IsNil() {
-					continue
-				}
-				if call, isCall := e.(*ssa.Call); isCall && an.IsBuiltinCall(call, "append") {
-					continue
-				}
-				if _, isMk := e.(*ssa.MakeSlice); isMk {
-					continue
-				}
-				fresh = false
+			if !appended {
+				r.Violation("CombineScenarios$setup#collect", an.Pos(c, sc), "the iteration function returned by a component setup is not appended to the list the iteration closure walks")
+				return
 			}
-		}
-		r.Check(fresh, "CombineScenarios$setup#fresh-list", an.Pos(c, sc), "the list of iteration functions is created inside the setup call (fresh per setup)", "the list of iteration functions lives outside the setup closure: a second setup of the same combined scenario appends to the first one's list, so every component runs twice (stale closures first)")
-		// the iteration closure walks that same list
-		iev, one := loopCall(iterFn, "RunFn")
-		if iev == nil || !one {
-			r.Violation("CombineScenarios$iter#call", c.Pos(iterFn.Pos()), "the iteration closure does not contain exactly one component call site")
-			return
-		}
-		ic := iev.Call()
-		ih := iev.Translate(ic.Common().Args[0])
-		p, isP := ih.(*ssa.Parameter)
-		r.Check(isP && p.Parent() == iterFn, "CombineScenarios$iter#handle", an.Pos(c, ic), "each component iteration receives the iteration closure's own parameter", "component iteration functions are called with "+an.D().Of(ih)+" (e.g. the captured setup handle), not with this iteration's handle")
-		// list identity: the list walked is the captured variable of the setup call that holds the collected list
-		okList := false
-		if ia, ok := an.Strip(ic.Common().Value).(*ssa.IndexAddr); ok {
-			lv := an.EventFV(*iev, ia.X).Resolve(nil).V
-			if fv, ok := lv.(*ssa.FreeVar); ok && fv.Parent() == iterFn {
-				if al, ok := an.FreeVarBinding(fv).(*ssa.Alloc); ok {
-					switch {
-					case target != nil:
-						okList = al == target
-					case listPhi != nil:
-						sts := an.StoresTo(al)
-						okList = len(sts) == 1 && an.RootFV(setupFn, sts[0].Val).Resolve(nil).V == ssa.Value(listPhi)
-					}
-				}
-			}
-		}
-		if ia, ok := an.Strip(ic.Common().Value).(*ssa.IndexAddr); ok && !okList {
-			// the iteration function is a method taken as a value on the collected list: the list walked is its receiver,
-			// bound where the setup returns it
-			lv := an.EventFV(*iev, ia.X).Resolve(nil).V
-			if rp, isP := lv.(*ssa.Parameter); isP && rp.Parent() == iterFn && an.ParamIndex(rp) == 0 && iterFn.Signature.Recv() != nil {
-				for _, ret := range an.Returns(setupFn) {
-					mc, isMC := an.Strip(ret.Results[0]).(*ssa.MakeClosure)
-					if ct, isCT := an.Strip(ret.Results[0]).(*ssa.ChangeType); isCT {
-						mc, isMC = ct.X.(*ssa.MakeClosure)
-					}
-					if !isMC || len(mc.Bindings) != 1 {
+			fresh := false
+			if target != nil {
+				fresh = inFrames(sev, target.Parent())
+			} else if listPhi != nil {
+				fresh = true
+				for _, e := range listPhi.Edges {
+					if k, isK := e.(*ssa.Const); isK && k.IsNil() {
 						continue
 					}
-					if f, isF := mc.Fn.(*ssa.Function); !isF || an.Unwrap(f) != iterFn {
+					if call, isCall := e.(*ssa.Call); isCall && an.IsBuiltinCall(call, "append") {
 						continue
 					}
-					bv := an.Strip(an.RootFV(setupFn, mc.Bindings[0]).Resolve(nil).V)
-					switch {
-					case listPhi != nil:
-						okList = bv == ssa.Value(listPhi)
-					case target != nil:
-						if ld, isLd := mc.Bindings[0].(*ssa.UnOp); isLd {
-							okList = ld.X == ssa.Value(target)
+					if _, isMk := e.(*ssa.MakeSlice); isMk {
+						continue
+					}
+					fresh = false
+				}
+			}
+			r.Check(fresh, "CombineScenarios$setup#fresh-list", an.Pos(c, sc), "the list of iteration functions is created inside the setup call (fresh per setup)", "the list of iteration functions lives outside the setup closure: a second setup of the same combined scenario appends to the first one's list, so every component runs twice (stale closures first)")
+			// the iteration closure walks that same list
+			iev, one := loopCall(iterFn, "RunFn")
+			if iev == nil || !one {
+				r.Violation("CombineScenarios$iter#call", c.Pos(iterFn.Pos()), "the iteration closure does not contain exactly one component call site")
+				return
+			}
+			ic := iev.Call()
+			ih := iev.Translate(ic.Common().Args[0])
+			p, isP := ih.(*ssa.Parameter)
+			r.Check(isP && p.Parent() == iterFn, "CombineScenarios$iter#handle", an.Pos(c, ic), "each component iteration receives the iteration closure's own parameter", "component iteration functions are called with "+an.D().Of(ih)+" (e.g. the captured setup handle), not with this iteration's handle")
+			// list identity: the list walked is the captured variable of the setup call that holds the collected list
+			okList := false
+			if ia, ok := an.Strip(ic.Common().Value).(*ssa.IndexAddr); ok {
+				lv := an.EventFV(*iev, ia.X).Resolve(nil).V
+				if fv, ok := lv.(*ssa.FreeVar); ok && fv.Parent() == iterFn {
+					if al, ok := an.FreeVarBinding(fv).(*ssa.Alloc); ok {
+						switch {
+						case target != nil:
+							okList = al == target
+						case listPhi != nil:
+							sts := an.StoresTo(al)
+							okList = len(sts) == 1 && an.RootFV(setupFn, sts[0].Val).Resolve(nil).V == ssa.Value(listPhi)
 						}
 					}
 				}
 			}
-		}
-		r.Check(okList, "CombineScenarios$iter#list", an.Pos(c, ic), "the iteration closure walks the list its setup filled", "the iteration closure walks "+an.D().Of(ic.Common().Value)+", not the list filled by its setup")
-		// the closures returned are these
-		for _, ret := range an.Returns(setupFn) {
-			mc, ok := an.Strip(ret.Results[0]).(*ssa.MakeClosure)
-			if ct, isCT := an.Strip(ret.Results[0]).(*ssa.ChangeType); isCT {
-				mc, ok = ct.X.(*ssa.MakeClosure)
+			if ia, ok := an.Strip(ic.Common().Value).(*ssa.IndexAddr); ok && !okList {
+				// the iteration function is a method taken as a value on the collected list: the list walked is its receiver,
+				// bound where the setup returns it
+				lv := an.EventFV(*iev, ia.X).Resolve(nil).V
+				if rp, isP := lv.(*ssa.Parameter); isP && rp.Parent() == iterFn && an.ParamIndex(rp) == 0 && iterFn.Signature.Recv() != nil {
+					for _, ret := range an.Returns(setupFn) {
+						mc, isMC := an.Strip(ret.Results[0]).(*ssa.MakeClosure)
+						if ct, isCT := an.Strip(ret.Results[0]).(*ssa.ChangeType); isCT {
+							mc, isMC = ct.X.(*ssa.MakeClosure)
+						}
+						if !isMC || len(mc.Bindings) != 1 {
+							continue
+						}
+						if f, isF := mc.Fn.(*ssa.Function); !isF || an.Unwrap(f) != iterFn {
+							continue
+						}
+						bv := an.Strip(an.RootFV(setupFn, mc.Bindings[0]).Resolve(nil).V)
+						switch {
+						case listPhi != nil:
+							okList = bv == ssa.Value(listPhi)
+						case target != nil:
+							if ld, isLd := mc.Bindings[0].(*ssa.UnOp); isLd {
+								okList = ld.X == ssa.Value(target)
+							}
+						}
+					}
+				}
 			}
-			if ok && mc.Fn != ssa.Value(iterFn) {
-				if f, isF := mc.Fn.(*ssa.Function); isF && an.Unwrap(f) == iterFn {
-					mc = &ssa.MakeClosure{Fn: iterFn}
+			r.Check(okList, "CombineScenarios$iter#list", an.Pos(c, ic), "the iteration closure walks the list its setup filled", "the iteration closure walks "+an.D().Of(ic.Common().Value)+", not the list filled by its setup")
+			// the closures returned are these
+			for _, ret := range an.Returns(setupFn) {
+				mc, ok := an.Strip(ret.Results[0]).(*ssa.MakeClosure)
+				if ct, isCT := an.Strip(ret.Results[0]).(*ssa.ChangeType); isCT {
+					mc, ok = ct.X.(*ssa.MakeClosure)
+				}
+				if ok && mc.Fn != ssa.Value(iterFn) {
+					if f, isF := mc.Fn.(*ssa.Function); isF && an.Unwrap(f) == iterFn {
+						mc = &ssa.MakeClosure{Fn: iterFn}
+					}
+				}
+				if ok && mc.Fn != ssa.Value(iterFn) {
+				// another of the iteration functions the setup can hand back: judged in its own pass
+				other := false
+				for _, it := range iterFns {
+					if f, isF := mc.Fn.(*ssa.Function); isF && (f == it || an.Unwrap(f) == it) {
+						other = true
+					}
+				}
+				if other {
+					continue
 				}
 			}
 			r.Check(ok && mc.Fn == ssa.Value(iterFn), "CombineScenarios$setup#returns", an.Pos(c, ret), "the setup returns the walking closure", "the setup closure returns "+an.D().Of(ret.Results[0]))
-		}
-	})
+			}
+		})
 
-	rule(r, "C20.R2", "both loops are single forward passes over the whole slice (range counter bounded by its length), one call per element, with no go, defer or recover inside the closures", func() {
-		if setupFn == nil || iterFn == nil {
-			panic(core.AnchorError{What: "closures of CombineScenarios"})
-		}
-		for name, fn := range map[string]*ssa.Function{"setup": setupFn, "iter": iterFn} {
-			typ := map[string]string{"setup": "ScenarioFn", "iter": "RunFn"}[name]
-			ev, _ := loopCall(fn, typ)
-			key := "CombineScenarios$" + name
-			if ev == nil {
-				r.Violation(key+"#loop", c.Pos(fn.Pos()), "no component call")
-				continue
+		rule(r, "C20.R2", "both loops are single forward passes over the whole slice (range counter bounded by its length), one call per element, with no go, defer or recover inside the closures", func() {
+			if setupFn == nil || iterFn == nil {
+				panic(core.AnchorError{What: "closures of CombineScenarios"})
 			}
-			call := ev.Call()
-			if _, isCall := call.(*ssa.Call); !isCall {
-				r.Violation(key+"#sync", an.Pos(c, call), "components are started with go/defer: a later component runs although an earlier one stopped the iteration, and order is lost")
-				continue
-			}
-			ia, ok := an.Strip(call.Common().Value).(*ssa.IndexAddr)
-			okLoop := ok && isCounter(ia.Index)
-			why := "the element called is not indexed by a forward loop counter"
-			if okLoop {
-				if _, ok := forwardBound(call.Block(), ia.Index, ia.X, func(a, b ssa.Value) bool { return a == b }); !ok {
-					okLoop, why = false, "the loop is not bounded by the length of the list (some components are skipped)"
+			for name, fn := range map[string]*ssa.Function{"setup": setupFn, "iter": iterFn} {
+				typ := map[string]string{"setup": "ScenarioFn", "iter": "RunFn"}[name]
+				ev, _ := loopCall(fn, typ)
+				key := "CombineScenarios$" + name
+				if ev == nil {
+					r.Violation(key+"#loop", c.Pos(fn.Pos()), "no component call")
+					continue
 				}
-			}
-			if okLoop && an.OnCycleAvoiding(call, loopHeaderOf(call)) {
-				okLoop, why = false, "a component is called more than once per pass"
-			}
-			if okLoop && len(an.GuardsOf(call.Block())) > 1 {
-				okLoop, why = false, "the component call is conditional"
-			}
-			// the helper holding the loop is itself called once, unconditionally
-			for fr := ev.Frame; okLoop && fr.Parent != nil; fr = fr.Parent {
-				if an.InLoop(fr.Site) || len(an.GuardsOf(fr.Site.Block())) > 0 {
-					okLoop, why = false, "the pass over the components is itself conditional or repeated"
+				call := ev.Call()
+				if _, isCall := call.(*ssa.Call); !isCall {
+					r.Violation(key+"#sync", an.Pos(c, call), "components are started with go/defer: a later component runs although an earlier one stopped the iteration, and order is lost")
+					continue
 				}
-			}
-			r.Check(okLoop, key+"#loop", an.Pos(c, call), "forward range over the whole list, one call per element", "components are not run by a single forward pass over the whole list: "+why)
-			clean := true
-			an.Flatten(fn, flatDepth, nil, func(e an.Event) {
-				in := e.Instr
-				switch x := in.(type) {
-				case *ssa.Go:
-					clean = false
-					r.Violation(key+"#go", an.Pos(c, in), "go statement inside the combined closure")
-				case *ssa.Defer:
-					clean = false
-					r.Violation(key+"#defer", an.Pos(c, in), "defer inside the combined closure: with a recover it lets later components run after one stopped the iteration")
-				case ssa.CallInstruction:
-					if an.IsBuiltinCall(x, "recover") {
-						clean = false
-						r.Violation(key+"#recover", an.Pos(c, in), "recover inside the combined closure swallows a component's FailNow/panic")
+				ia, ok := an.Strip(call.Common().Value).(*ssa.IndexAddr)
+				okLoop := ok && isCounter(ia.Index)
+				why := "the element called is not indexed by a forward loop counter"
+				if okLoop {
+					if _, ok := forwardBound(call.Block(), ia.Index, ia.X, func(a, b ssa.Value) bool { return a == b }); !ok {
+						okLoop, why = false, "the loop is not bounded by the length of the list (some components are skipped)"
 					}
 				}
-			})
-			for _, a := range fn.AnonFuncs {
-				if a != iterFn {
-					clean = false
-					r.Violation(key+"#nested", c.Pos(a.Pos()), "components are wrapped in an extra function literal")
+				if okLoop && an.OnCycleAvoiding(call, loopHeaderOf(call)) {
+					okLoop, why = false, "a component is called more than once per pass"
+				}
+				if okLoop && len(an.GuardsOf(call.Block())) > 1 {
+					okLoop, why = false, "the component call is conditional"
+				}
+				// the helper holding the loop is itself called once, unconditionally
+				for fr := ev.Frame; okLoop && fr.Parent != nil; fr = fr.Parent {
+					if an.InLoop(fr.Site) || len(an.GuardsOf(fr.Site.Block())) > 0 {
+						okLoop, why = false, "the pass over the components is itself conditional or repeated"
+					}
+				}
+				r.Check(okLoop, key+"#loop", an.Pos(c, call), "forward range over the whole list, one call per element", "components are not run by a single forward pass over the whole list: "+why)
+				clean := true
+				an.Flatten(fn, flatDepth, nil, func(e an.Event) {
+					in := e.Instr
+					switch x := in.(type) {
+					case *ssa.Go:
+						clean = false
+						r.Violation(key+"#go", an.Pos(c, in), "go statement inside the combined closure")
+					case *ssa.Defer:
+						clean = false
+						r.Violation(key+"#defer", an.Pos(c, in), "defer inside the combined closure: with a recover it lets later components run after one stopped the iteration")
+					case ssa.CallInstruction:
+						if an.IsBuiltinCall(x, "recover") {
+							clean = false
+							r.Violation(key+"#recover", an.Pos(c, in), "recover inside the combined closure swallows a component's FailNow/panic")
+						}
+					}
+				})
+				for _, a := range fn.AnonFuncs {
+					if a != iterFn {
+						clean = false
+						r.Violation(key+"#nested", c.Pos(a.Pos()), "components are wrapped in an extra function literal")
+					}
+				}
+				if clean {
+					r.OK(key+"#effects", c.Pos(fn.Pos()), "no go/defer/recover: a stopping component unwinds into the runner's recovered frame")
 				}
 			}
-			if clean {
-				r.OK(key+"#effects", c.Pos(fn.Pos()), "no go/defer/recover: a stopping component unwinds into the runner's recovered frame")
-			}
-		}
-	})
+		})
 
+	}
+	if len(iterFns) == 0 {
+		runIter()
+	}
+	for _, it := range iterFns {
+		iterFn = it
+		runIter()
+	}
 	rule(r, "C20.R3", "an iteration stopped by a component is reported failed: containment, classifier and failure-API rules of C07 (R1–R3)", func() {
 		sub := core.NewReport("C07")
 		c07(c, sub)
